@@ -79,7 +79,8 @@ def r1(rr, repo):
     # initial value and the scan over user outputs
     pname = steps[0][1] if steps else None
     inits = [n for n in walk_scope(pf) if isinstance(n, ast.Assign) and any(isinstance(t, ast.Name) and t.id == pname for t in n.targets)]
-    scans = [n for n in inits if 'max(' in U(n.value)]
+    # the scans that take a port from a tcp:// address (ports found in other URLs / options: C12.R13)
+    scans = [n for n in inits if 'max(' in U(n.value) and ('rsplit(' in U(n.value) or any(p_ and "startswith('tcp://')" in t_ for t_, p_ in q.effective_guards(n, pf)))]
     init0 = [n for n in inits if isinstance(n.value, ast.Constant)]
     rr.ob('the highest used port starts at default - step (so the first allocation is the default port, and nothing lower is handed out)', bool(init0) and default is not None and steps and init0[0].value.value == default - steps[0][2],
           cmod, init0[0] if init0 else pf, witness=f'{U(init0[0]) if init0 else None}, default {default}', key='init-port')
@@ -606,10 +607,28 @@ def r13(rr, repo):
     # 3. reservations
     scans = [n for n in walk_scope(pf) if isinstance(n, ast.Assign) and U(n.targets[0]) == 'max_port' and U(n.value).startswith('max(')]
     rr.floor('reservations of user-given ports', len(scans), 2, cmod, pf)
+    url_kinds = set()
     for n in scans:
         g = q.effective_guards(n, pf)
-        var = 'source' if 'source' in U(n.value) else 'output'
-        rr.ob(f'the port of a user-given tcp {var} is reserved when the {var} IS a tcp address', has(g, f"{var}.startswith('tcp://')", True), cmod, n, witness=str(g)[:200], key=f'reserve-sense|{var}')
+        v = U(n.value)
+        if 'rsplit(' in v or any(p_ and "startswith('tcp://')" in t_ for t_, p_ in g):          # the port is taken from a tcp:// address (default when none is written)
+            var = 'source' if 'source' in v else 'output'
+            rr.ob(f'the port of a user-given tcp {var} is reserved when the {var} IS a tcp address', has(g, f"{var}.startswith('tcp://')", True), cmod, n, witness=str(g)[:200], key=f'reserve-sense|{var}')
+        elif '.group(' in v:        # the port a regular expression found in some other URL
+            var = 'source' if any('source' in t for t, p in g) else 'output'
+            matched = any(p and '.match(' + var in t.replace(' ', '') for t, p in g)
+            rr.ob(f'the port found in a user-given {var} URL of another scheme is reserved when the pattern matched that {var}', matched, cmod, n, witness=str(g)[:200], key=f'reserve-url-sense|{var}')
+            if matched:
+                url_kinds.add(var)
+        elif v.replace(' ', '') in ('max(max_port,port)',):
+            okp = any(p and 'isinstance(' in t and "config.get('port')" in t.replace('"', "'") for t, p in g)
+            rr.ob('a port given as the `port` option is reserved when it is a number', okp, cmod, n, witness=str(g)[:160], key='reserve-port-option-sense')
+            if okp:
+                url_kinds.add('option')
+        else:
+            rr.unresolved('a reservation of a user-given port takes the port from something this rule does not know', cmod, n, witness=v[:100], key='reserve-kind')
+    rr.ob("ports the user gave outside tcp:// addresses are reserved too: in source URLs, in output URLs of other schemes (Webvis' http://0.0.0.0:5550) and as the `port` option", {'source', 'output', 'option'} <= url_kinds, cmod,
+          scans[0] if scans else pf, witness=f'kinds of non-tcp reservations found: {sorted(url_kinds) or "none"}', key='reserve-non-tcp-ports')
     # 4. numbers become text
     convs = [n for n in walk_scope(pf) if isinstance(n, ast.Assign) and isinstance(n.value, ast.Call) and U(n.value.func) == 'str' and isinstance(n.targets[0], ast.Subscript) and U(n.targets[0].value) == 'config']
     for n in convs:
